@@ -18,7 +18,7 @@ RULE = (
     "ill-typed call), used as a test and as either comparison operand; every literal kind (null, true, false, float, negative, '', string, 0) at every argument position of 1- and 2-argument calls; O: every comparison over 8 operand kinds; each basic "
     "expression placed at every position (top, under !, either side of && and ||, in parentheses, inside a nested filter); "
     "depth-2 nestings of calls (thorough: 3). S: every spelling (both quote styles, dot/bracket forms, one blank at every ABNF S position) of a sample of the well-typed expressions at three positions must compile; L: index and slice bounds at limit-1, limit, limit+1 (both signs) under the "
-    "default environment, one narrowed to +-10 and two with asymmetric limits (-3..10, -10..3); leading zeros; list shapes; uncompared literals at every position. "
+    "default environment, one narrowed to +-10 and two with asymmetric limits (-3..10, -10..3); M: the limits and the type-check switch changed on an environment (instance or class attribute) that has compiled the same text before, every order of 3 of 4 configurations; leading zeros; list shapes; uncompared literals at every position. "
     "state = distinct (environment, query text); non-trivial = the classifier says well-typed (must compile)"
 )
 ASSUMPTIONS = [
@@ -183,6 +183,7 @@ def plan(tier, seed):
     for lo in range(0, nb, 300):
         shards.append(("T", tier, lo, min(nb, lo + 300)))
     shards.append(("L",))
+    shards.append(("M",))
     ws = well_typed_sample(tier)
     for lo in range(0, len(ws), 20):
         shards.append(("S", tier, lo, min(len(ws), lo + 20)))
@@ -215,7 +216,75 @@ def env(name, well_typed=True):
     return _ENVS[key]
 
 
+M_TEXTS = ["$[11]", "$[-11]", "$[:11]", "$[::-11]", "$[?@[11]]", "$..[11, 0]", "$[5]", "$[?count(@[1:11]) == 1]"]
+M_ILLTYPED = ["$[?length(@.*) == 1]", "$[?@.* == 1]", "$[?match(@.a, 'a') == true]", "$[?length(@.a)]"]
+
+
+def _mutated(acc, record=True, only=None):
+    """The limits and the type-check switch in force when compile() is called decide, also on an environment whose
+    configuration was changed after it had compiled the same text before (every order of the configurations)."""
+    import jsonpath
+    from jsonpath import JSONPathError
+
+    configs = [("wide", None), ("narrow", (10, -10)), ("wide2", None), ("narrow2", (10, -10))]
+    for order in itertools.permutations(range(4), 3):
+        for how in ("instance", "class"):
+            cls = type("Mut", (jsonpath.JSONPathEnvironment,), {})
+            e = cls()
+            for step, ci in enumerate(order):
+                name, lim = configs[ci]
+                target = e if how == "instance" else cls
+                if lim is None:
+                    target.max_int_index, target.min_int_index = LIMIT, -LIMIT
+                else:
+                    target.max_int_index, target.min_int_index = lim
+                for text in M_TEXTS:
+                    key = [list(order), how, step, text]
+                    if only is not None and key != only:
+                        continue
+                    ok = lim is None or text == "$[5]"
+                    try:
+                        e.compile(text)
+                        got = True
+                    except JSONPathError:
+                        got = False
+                    except Exception as ex:  # noqa: BLE001
+                        got = "%s: %s" % (type(ex).__name__, ex)
+                    if record:
+                        acc.case("M", (order, how, step, text), outcome=ok, nontrivial=ok)
+                        acc.count("M.limits")
+                    if got is not ok:
+                        acc.violation("M", "stale-configuration", {"mut": key}, expected="accepted" if ok else "rejected",
+                                      observed="accepted" if got is True else ("rejected" if got is False else got))
+    # the type-check switch
+    for first in (False, True):
+        e = jsonpath.JSONPathEnvironment(well_typed=first)
+        for step, wt in enumerate((first, not first, first)):
+            e.well_typed = wt
+            for text in M_ILLTYPED:
+                key = [[int(first)], "well_typed", step, text]
+                if only is not None and key != only:
+                    continue
+                try:
+                    e.compile(text)
+                    got = True
+                except JSONPathError:
+                    got = False
+                except Exception as ex:  # noqa: BLE001
+                    got = "%s: %s" % (type(ex).__name__, ex)
+                ok = not wt
+                if record:
+                    acc.case("M", (first, "well_typed", step, text), outcome=ok, nontrivial=ok)
+                    acc.count("M.switch")
+                if got is not ok:
+                    acc.violation("M", "stale-configuration", {"mut": key}, expected="accepted" if ok else "rejected",
+                                  observed="accepted" if got is True else ("rejected" if got is False else got))
+
+
 def run_shard(shard, acc):
+    if shard[0] == "M":
+        _mutated(acc)
+        return
     if shard[0] == "T":
         for e in basics(shard[1])[shard[2]:shard[3]]:
             for pos in POSITIONS:
@@ -267,6 +336,9 @@ REQUIRE = {"S.ok": 1000, "T.ok": 500, "T.ill": 5000, "L.ok": 50, "L.ill": 200, "
 
 
 def check_case(sub, case, acc):
+    if sub == "M":
+        _mutated(acc, record=False, only=case["mut"])
+        return
     if sub in ("T", "S"):
         q = tup(case["q"])
         placed = q[2][0][1][0][1]
@@ -303,6 +375,8 @@ def _shape(e):
 
 
 def signature(sub, case, v):
+    if sub == "M":
+        return "C07.M.%s.%s.%s" % (v["kind"], case["mut"][1], v.get("expected"))
     if sub == "L":
         import re
         return "C07.L.%s.%s.%s.%s" % (v["kind"], case.get("tag"), case["env"], re.sub(r"[0-9]{3,}", "N", case["text"])[:40])
